@@ -61,8 +61,11 @@ class Models:
     def member_access(self, unit, n, base_text):
         base = unit.kids(n)[0]
         bt = (base.get('type', {}).get('desugaredQualType') or base.get('type', {}).get('qualType', '')).replace('const ', '').replace('struct ', '').replace('*', '').strip()
+        if n.get('name') == '__sigaction_handler': return base_text        # glibc: sa_handler / sa_sigaction are macros for __sigaction_handler.<member>; the C compiler expands them again
         if bt in ('iovec', 'timeval', 'timespec', 'tm', 'timezone', 'epoll_event', 'epoll_data', 'epoll_data_t', 'fd_set', 'sigaction', 'sockaddr_in', 'sockaddr', 'ucontext_t', 'stack_t'):
             return '%s%s%s' % (base_text, '->' if n.get('isArrow') else '.', n['name'])     # plain C struct of the system headers
+        if n.get('name') in ('sa_handler', 'sa_sigaction'):
+            return '%s%s%s' % (base_text, '->' if n.get('isArrow') else '.', n['name'])     # the handler union inside struct sigaction
         for p in self.plugins:
             r = p.member_access(unit, n, base_text)
             if r is not None: return r
